@@ -73,7 +73,7 @@ def snapshot(ws, tags, known=None):
         if d is None:
             snap[str(t)] = dict(dir=None, done=False, failed=False, pid=False)
             continue
-        names = [p.name for p in d.iterdir()]
+        names = [p.name for p in d.iterdir() if p.exists()]      # a dangling alias is not a file
         pidf = next((d / n for n in names if n.endswith(".pid")), None)
         pidv = None
         if pidf is not None:
@@ -100,7 +100,8 @@ def run_scenario(sc, base, repo, harness):
     ws.mkdir(parents=True, exist_ok=True)
     (ctl / "events.log").touch()
     env = dict(os.environ)
-    pythonpath = f"{repo}/src:{harness}"
+    (wd / "mod").mkdir(exist_ok=True)
+    pythonpath = f"{repo}/src:{harness}:{wd / 'mod'}"
     env.update(PYTHONPATH=pythonpath, PYTHONHASHSEED="0", PYTHONDONTWRITEBYTECODE="1",
                EXPERIMAESTRO_PYTHON_VERIF="1", XPM_WORKDIR=str(wd / "xpmhome"), HOME=str(wd / "home"))
     (wd / "home").mkdir(exist_ok=True)
@@ -120,7 +121,8 @@ def run_scenario(sc, base, repo, harness):
         sp = wd / f"spec.{r['sid']}.{r['run']}.json"
         sp.write_text(json.dumps(spec_of(r)))
         errf = open(wd / f"err.{r['sid']}.{r['run']}.txt", "w")
-        p = subprocess.Popen([PY, "-W", "ignore", str(HERE / "xpdriver.py"), str(sp)], env=env, cwd=str(wd),
+        renv = env if r.get("hashseed") is None else dict(env, PYTHONHASHSEED=str(r["hashseed"]))
+        p = subprocess.Popen([PY, "-W", "ignore", str(HERE / "xpdriver.py"), str(sp)], env=renv, cwd=str(wd),
                              stdout=errf, stderr=errf, start_new_session=True)
         return p
 
@@ -216,6 +218,18 @@ def run_scenario(sc, base, repo, harness):
                 pass
         elif "write" in a:
             (ctl / a["write"][0]).write_text(a["write"][1])
+        elif "write_module" in a:
+            name, src = a["write_module"]
+            (wd / "mod" / f"{name}.py").write_text(src)
+        elif "fix_deprecated" in a:
+            # what `experimaestro deprecated list --fix` does
+            code = ("import sys, logging; logging.disable(logging.CRITICAL); from pathlib import Path; "
+                    "from experimaestro.tools.jobs import fix_deprecated; fix_deprecated(Path(sys.argv[1]), True, False)")
+            rr = subprocess.run([PY, "-W", "ignore", "-c", code, str(ws)], env=env, cwd=str(wd), capture_output=True, text=True, timeout=60)
+            with open(logpath, "ab") as f:
+                f.write(f"FIX 0 fixed rc={rr.returncode}\n".encode())
+            if rr.returncode != 0:
+                out["problems"].append("fix_deprecated failed: " + rr.stderr[-300:])
         elif "silent_server" in a:
             # a TCP port that accepts connections (kernel backlog) and never answers
             import socket
